@@ -123,8 +123,10 @@ def _build_parse_datetime(args: list, dialect: Dialect) -> exp.ParseDatetime:
 
 def _build_regexp_extract(expr_type: type[E], default_group: exp.Expr | None = None) -> t.Callable:
     def _builder(args: list, dialect: Dialect) -> E:
+        regex = seq_get(args, 1)
+
         try:
-            group = re.compile(args[1].name).groups == 1
+            group = regex is not None and re.compile(regex.name).groups == 1
         except re.error:
             group = False
 
